@@ -40,7 +40,8 @@ def check(case):
     if case.get("approach"):
         net = M.configuration_network(case["N"], case["net_seed"])
         E = sum(len(NC.motif_edges(net["topos"][ti]["kind"], vs)) for ti, vs in net["motifs"])
-        full = {"net": net, "target": {"mode": "assortative", "lambda": case["lambda"]}, "L": E * case["Lfactor"],
+        full = {"net": net, "target": {"mode": "assortative", "lambda": case["lambda"],
+                                       "dict_reversed": bool(case["net_seed"] % 2)}, "L": E * case["Lfactor"],
                 "search": 20, "rng": case["rng"]}
         R = M.run_rewire(full)
         names = NC.names(net)
@@ -49,6 +50,11 @@ def check(case):
         d0 = M.distance(M.mixing_matrices(R.before[1], R.jds, names), R.mats)
         final = R.out if R.out is not None else R.work
         nsw = len(M.batches(R.journal))
+        if R.budget and nsw == 0 and d0 > 0.2:
+            # these networks are built so that hundreds of improving swaps exist (the unchanged code accepts one every
+            # few dozen draws): not a single accepted swap in the whole draw budget means the chain can not approach
+            raise Violation("approach-no-progress", f"no swap accepted in the whole draw budget although the "
+                                                    f"network is far from the target (distance {d0:.3f}, E={E}, lambda={case['lambda']})")
         if final is None or (R.budget and nsw < max(20, E // 10)):
             return {"nontrivial": False, "classes": ["approach", "budget_cut"], "inconclusive": True}
         # a run cut by the draw budget after at least max(20, E/10) accepted swaps is still judged on its working graph
